@@ -10,6 +10,7 @@ package extractor
 //@   ensures result != nil && fresh(result) && result.TimingInfo != nil && fresh(result.TimingInfo) && result.Parser != nil
 //@   ensures wfParser(result.Parser)
 //@   ensures result.pageURL == pageURL && result.documentElement != nil && result.WordCounter != nil
+//@   ensures [C09] #word-counter-chosen-from-the-whole-document-text wordCounterFor(result.WordCounter, dom.TextContent(result.documentElement))
 
 //@ func (*ContentExtractor).ExtractTitle()
 //@   requires ce != nil && ce.Parser != nil && wfParser(ce.Parser) && ce.documentElement != nil
@@ -43,3 +44,10 @@ package extractor
 //@ func getDocumentTitle(root, wc)
 //@   ensures [C15] #title-from-visible-title-text implies(root != nil && wc != nil && titleNode != nil, origTitle == old(domutil.InnerText(titleNode)))
 //@   ensures [C15] #no-title-element-no-title implies(root != nil && wc != nil && titleNode == nil, origTitle == "")
+//@   ensures [C15] #plain-title-is-returned-as-it-is implies(root != nil && wc != nil && !titleHasSep(origTitle) && !titleHasColon(origTitle) && !titleBadLength(origTitle), result == origTitle || result == cleanTitle(origTitle))
+//@   ensures [C15] #bad-length-falls-back-to-the-first-h1 implies(root != nil && wc != nil && titleBadLength(origTitle), result == origTitle ||
+//@              result == cleanTitle(ite(old(dom.QuerySelector(root, "h1")) != nil, old(domutil.InnerText(dom.QuerySelector(root, "h1"))), origTitle)))
+//@   ensures [C15] #separator-title-keeps-one-side implies(root != nil && wc != nil && titleHasSep(origTitle), result == origTitle ||
+//@              result == cleanTitle(rxTitleRemoveFinalPart.ReplaceAllString(origTitle, "$1")) || result == cleanTitle(rxTitleRemove1stPart.ReplaceAllString(origTitle, "$1")))
+//@   ensures [C15] #colon-title-keeps-a-tail implies(root != nil && wc != nil && titleHasColon(origTitle), result == origTitle || result == cleanTitle(origTitle) ||
+//@              result == cleanTitle(origTitle[strings.LastIndex(origTitle, ":")+1:]) || result == cleanTitle(origTitle[strings.Index(origTitle, ":")+1:]))
